@@ -601,6 +601,19 @@ theorem metrics_after_group {c c'' : Dag} {P P'' : Reg → List NodeId} (g : Goo
   obtain ⟨e, P', g', hh', hr', hw'⟩ := groupOneQubitGates_wiredWire g hh
   exact ⟨e, equal_wires_equal_metrics g' g'' hh'.plain hpl'' (hregs.trans hr'.symm) (fun r _ => (hw r).trans (hw' r).symm)⟩
 
+/-- **the wires of the prepared copy** `unwrap_nodes(); remove_identity()` (on which five of the metrics work): on any circuit
+    satisfying DagInv with graphiq-constructed operations both calls succeed and every wire of the copy carries the unwrapped,
+    identity-free sequence of the original wire — operations as wired (instance `[unwrap_nodes, remove_identity]` of
+    `C12.rewrite_history_on_wired_wires`) -/
+theorem prepared_copy_wires {c : Dag} {P : Reg → List NodeId} (g : Good c P) (hh : GroupHyp c) :
+    ∃ c' P', prep c = .ok c' ∧ Good c' P' ∧ c'.regs = c.regs ∧
+      ∀ r, wiredWire c' P' r = ((wiredWire c P r).flatMap Op.unwrap).filter (fun o => !decide (o.kind = .identity)) := by
+  obtain ⟨P', g', _, hr, hw⟩ := C12.rewrite_history_on_wired_wires [.unwrapNodes, .removeIdentity] g hh
+  obtain ⟨L, hS⟩ := sched_exists g
+  obtain ⟨c1, P1, L1, hprep, _, _, _, _, _⟩ := prep_sched_gen g hh.plain hS
+  have hc1 := prep_eq_ok hprep
+  refine ⟨c1, P', hprep, by rw [hc1]; exact g', by rw [hc1]; exact hr, fun r => by rw [hc1]; exact hw r⟩
+
 /-! ### the theorems for `add`-built circuits are the special case "schedule = creation order" -/
 
 /-- a circuit built by `add` has the schedule "nodes in creation order" whose operation list is `seq` itself — so §2–§5 are
